@@ -88,8 +88,10 @@ class Machine(object):
             return n['v']
         if k in ('ParenExpr', 'ExprWithCleanups', 'MaterializeTemporaryExpr', 'CXXBindTemporaryExpr', 'ConstantExpr'):
             return self.ev(n['ch'][0])
-        if k in ('ImplicitCastExpr', 'CStyleCastExpr', 'CXXStaticCastExpr', 'CXXFunctionalCastExpr'):
+        if k in ('ImplicitCastExpr', 'CStyleCastExpr', 'CXXStaticCastExpr', 'CXXFunctionalCastExpr', 'CXXReinterpretCastExpr', 'CXXConstCastExpr'):
             ck = n.get('ck')
+            if ck in ('BitCast', 'DerivedToBase', 'BaseToDerived') or k in ('CXXReinterpretCastExpr', 'CXXConstCastExpr'):
+                return self.ev(n['ch'][0])
             if ck == 'LValueToRValue':
                 return self.rv(n['ch'][0])
             if ck in ('PointerToBoolean', 'NullToPointer'):
@@ -225,6 +227,9 @@ class Machine(object):
                     sub = Machine(callee, self.fields, [self.rv(a) for a in n.get('args', [])], self.steps)
                     sub.resolve, sub.depth = self.resolve, self.depth + 1
                     return sub.call()
+            if getattr(self, 'methods', None) and n.get('callee') in self.methods:
+                # a method of another object the rule supplies a model for (the object itself is not modelled)
+                return trunc(self.methods[n['callee']](*[self.rv(a) for a in n.get('args', [])]), n)
             raise Unknown('call %s' % n.get('callee'))
         if k == 'CallExpr' and getattr(self, 'free', None) and n.get('callee') in self.free:
             # a free function the rule supplies a model for (justified by the rule that decides that function)
